@@ -95,6 +95,16 @@ def mutants(func):
 
 
 def run_one(job):
+    prop, cids, rel, qualname, desc, new_src = job
+    last = None
+    for cid in cids:
+        last = run_contract((prop, cid, rel, qualname, desc, new_src))
+        if last[3] == 'killed':
+            break
+    return (prop, '%s:%s' % (rel.split('/')[-1], qualname), desc, last[3], last[4])
+
+
+def run_contract(job):
     prop, cid, rel, qualname, desc, new_src = job
     from pyvc.check import load_property
     from pyvc.verify import verify_function
@@ -153,11 +163,13 @@ def main():
     for prop in props:
         reg, m = load_property(prop)
         cs = list(m.CONTRACTS) + (list(m.dynamic_contracts(REPO)) if hasattr(m, 'dynamic_contracts') else [])
-        seen_fn = set()
+        groups = {}
         for c in cs:
-            if c.tier == 'thorough-only' or (c.file, c.qualname) in seen_fn and c.region is None:
+            if c.tier == 'thorough-only':
                 continue
-            seen_fn.add((c.file, c.qualname))
+            groups.setdefault((c.file, c.qualname, id(c.region) if c.region is not None else None), []).append(c)
+        for (_f, _q, _r), group in groups.items():
+            c = group[0]
             path = os.path.join(REPO, c.file)
             src = open(path, encoding='utf-8').read()
             tree = ast.parse(src)
@@ -184,7 +196,8 @@ def main():
                     ast.parse(new_src)
                 except SyntaxError:
                     continue
-                jobs.append((prop, c.id, c.file, c.qualname, desc, new_src))
+                # larger shapes first: they exercise more of the body
+                jobs.append((prop, [x.id for x in reversed(group)], c.file, c.qualname, desc, new_src))
     t0 = time.time()
     with mp.get_context('fork').Pool(procs) as pool:
         results = pool.map(run_one, jobs, chunksize=1)
